@@ -212,7 +212,7 @@ def run(ctx):
                     ctx.count("table_object_replaced_by_a_structural_edit")      # judged by its consequence: the edits below go through `ad`
                 ops = []
                 for _ in range(rng.choice([0, 0, 1, 1, 2, 3])):
-                    ops.append(rng.choice(["read", "read", "mutate", "assign", "retype", "retype_back"]))
+                    ops.append(rng.choice(["read", "read", "mutate", "assign", "retype", "retype_back", "copy"]))
                 hist[k] = list(ops)
                 for o in ops:
                     ctx.count("op:" + o)
@@ -252,6 +252,20 @@ def run(ctx):
                             st["t"] = (new, [])
                             mops[k].append([3, zs(new)])
                             checks[k].append((len(mops[k]) - 1, "ok", None))
+                    elif o == "copy":
+                        # the table object is replaced by a COPY of itself (copy.deepcopy / a pickle round trip) in its container: a copy
+                        # of a table is that table -- same pending bytes, same name they were loaded under, same value (no model op)
+                        import copy as _copy
+                        import pickle as _pickle
+                        how = rng.choice(["deepcopy", "pickle"])
+                        try:
+                            ad2 = _copy.deepcopy(ad) if how == "deepcopy" else _pickle.loads(_pickle.dumps(ad))
+                        except Exception:  # noqa: BLE001
+                            ctx.count("table_copy_unsupported:" + how)
+                            continue
+                        (ir.aux_data if k.startswith("ir") else mod.aux_data)[k] = ad2
+                        ad = handles[k] = ad2
+                        ctx.count("table_replaced_by_its_copy:" + how)
                     elif o == "retype_back":
                         # assign the same name again: must not count as a change
                         ad.type_name = str(st["tn"])
@@ -280,6 +294,19 @@ def run(ctx):
                 if st["touched"]:
                     mops[k].append([6, to_sx(ad.data, env)])
                     checks[k].append((len(mops[k]) - 1, "ok", None))
+            ir_copied = False
+            if rng.random() < 0.2:
+                ir_copied = True
+                # ... or the WHOLE IR is copied and the copy is what gets saved (a copied set or dict may iterate in another order: for
+                # such a generation written bytes are compared up to the order of set elements and mapping entries)
+                import copy as _copy
+                import pickle as _pickle
+                how = rng.choice(["deepcopy", "pickle"])
+                try:
+                    ir = _copy.deepcopy(ir) if how == "deepcopy" else _pickle.loads(_pickle.dumps(ir))
+                    ctx.count("ir_replaced_by_its_copy_before_save:" + how)
+                except Exception:  # noqa: BLE001
+                    ctx.count("ir_copy_unsupported:" + how)
             buf = io.BytesIO()
             try:
                 with time_limit(30):
@@ -315,11 +342,22 @@ def run(ctx):
                         kind = "encoded"
                     except Exception:  # noqa: BLE001
                         kind = "skip"
+                if kind == "encoded" and got != want and ir_copied and st["kind"] == "known":
+                    try:
+                        if auxval.wire_canon(st["t"], got) == auxval.wire_canon(st["t"], want):
+                            want = got
+                    except Exception:  # noqa: BLE001
+                        pass
                 if kind == "encoded" and got != want:
                     desc["expected_bytes"] = want.hex()
                     ctx.add("oracle", "stale-or-wrong-bytes", "a touched table was not written as the encoding of its current value", desc)
                 mops[k].append([4])
-                checks[k].append((len(mops[k]) - 1, "save", (got_tn, got)))
+                if ir_copied and st["kind"] == "known" and st["touched"]:
+                    st["loose"] = True          # (from here on the model's bytes and the file's may differ in element order)
+                if st.get("loose") and st["kind"] == "known":
+                    checks[k].append((len(mops[k]) - 1, "save-canon", (got_tn, got, st["t"])))
+                else:
+                    checks[k].append((len(mops[k]) - 1, "save", (got_tn, got)))
                 mops[k].append([5])
                 checks[k].append((len(mops[k]) - 1, "ok", None))
                 st.update(loaded_tn=got_tn, loaded_raw=got, touched=False)
@@ -392,6 +430,12 @@ def run(ctx):
                 ok = (mr[0] == want[0]) and (want[0] == "ok" or mr[1] == want[1])
             elif kind == "save":
                 ok = mr[0] == "ok" and "".join(map(chr, mr[1])) == want[0] and bytes(mr[2]) == want[1]
+            elif kind == "save-canon":
+                try:
+                    ok = (mr[0] == "ok" and "".join(map(chr, mr[1])) == want[0]
+                          and auxval.wire_canon(want[2], bytes(mr[2])) == auxval.wire_canon(want[2], want[1]))
+                except Exception:  # noqa: BLE001
+                    ok = False
             elif kind == "save-any":
                 if want[0] == "ok":
                     ok = mr[0] == "ok" and "".join(map(chr, mr[1])) == want[1][0] and bytes(mr[2]) == want[1][1]
